@@ -122,7 +122,7 @@ Clauses(e) ==
               /\ Len(e.relax) = e.model.passes
               /\ e.relax[Len(e.relax)][1] = e.model.jumpargs>>,
         <<"M.relax", (same /\ e.hook) =>
-              EN!RelaxSeq(e.d, EN!AssignOperands(e.d, km, ToSet(e.str_toks), e.none_tok).args, scale, 1, 40) = e.relax>>
+              EN!RelaxSeq(e.d, EN!Prepared(e.d, km, ToSet(e.str_toks), e.none_tok).args, scale, 1, 40) = e.relax>>
        >>
 
 \* from_code itself raised on a compiled code object
